@@ -11,8 +11,11 @@
      - acceptance does not depend on the order (C01_acceptance_order_independent) and the election never
        errs (C01_election_never_errs): the "accept every event" clause.
    For the implementation the statement is C01_full; it is proved FROM impl_refines_spec (model run =
-   reference; the L1 invariant of DESIGN 5 C10 for model/AbftRun.v), which is NOT proved: the
-   implementation-level claim is established by testing (5+ real instances per scenario). *)
+   reference; the L1 invariant of DESIGN 5 C10 for model/AbftRun.v).  That refinement is PROVED by worker link
+   (proofs/Link*.v) under explicit side conditions; the resulting theorems for the model of the code are
+   further down: C01_agreement_for_the_model(_any_order), ..._across_epochs, C01_process_only_instances_agree,
+   C01_agreement_across_epochs_any_policy.  The step from the model to the Go code is the hand port +
+   testing (5+ real instances per scenario). *)
 From Coq Require Import NArith List.
 From LV Require Import model.VecIndex lib.WSumBft spec.ElectionSpec proofs.BftCore proofs.BftElection
   proofs.BftMono proofs.BftGraph proofs.BftMain proofs.BftRun proofs.BftFcSpec proofs.BftAccept proofs.BftProps.
@@ -174,3 +177,65 @@ Example C01_across_epochs_example :
   map epoch_blocks (model_epochs 200 (fun _ => 0) (mk_policy 1 0 ex_vals 1 2) 0 (start 1 ex_vals) ex_vals 1 me_Ds').
 Proof. exact (conj me_same_sets (conj me_orders_differ (conj me_ok (conj me_ok' me_agreement)))). Qed.
 Print Assumptions C01_agreement_for_the_model_across_epochs.
+
+(* ================= Round 3 (worker link): instances that only call Process =================
+   (proofs/LinkXCor.v: link_x_builds_invisible, from LinkEpochsX.link_x)  The Build of an event is optional
+   in every slot of a schedule (LinkX.xslot.x_build).  C01_process_only_instances_agree: the run of an instance
+   that is fed by Process only (nobuild_S: every Build removed) equals the run of the instance that Builds every
+   event first, the Build frames erased -- over several epochs under an arbitrary policy, with noise and
+   rejected events: same verdicts, same decided frame and epoch after every Process (the last decided
+   state), same blocks (frame, Atropos, cheaters, seal), same epoch transitions and validator sets. *)
+From LV Require Import proofs.LinkReject proofs.LinkX proofs.LinkEpochsX proofs.LinkXCheck proofs.LinkXCor proofs.LinkXExample proofs.LinkXCorExample.
+
+Theorem C01_process_only_instances_agree : forall cap lam pol vals Ss K,
+  vals <> [] -> epochs_ok_x pol K vals 1 Ss -> N.of_nat (total_builds Ss) <= K -> K < 2 ^ 192 ->
+  map erase_builds (model_epochs_x cap lam pol (start 1 vals) vals 1 Ss) = model_epochs_x cap lam pol (start 1 vals) vals 1 (map nobuild_S Ss).
+Proof. exact link_x_builds_invisible. Qed.
+
+Example C01_process_only_example :
+  epochs_ok_xb xx_pol 400 ex_vals 1 xx_Ss = true /\ total_builds xx_Ss = 87%nat /\ total_builds (map nobuild_S xx_Ss) = 4%nat /\
+  map erase_builds (model_epochs_x 3 xx_lam xx_pol (start 1 ex_vals) ex_vals 1 xx_Ss) =
+  model_epochs_x 3 xx_lam xx_pol (start 1 ex_vals) ex_vals 1 (map nobuild_S xx_Ss).
+Proof. split; [exact xx_input_ok|]. split; [exact xx_builds|]. split; [vm_compute; reflexivity | exact xx_builds_invisible]. Qed.
+
+Print Assumptions C01_process_only_instances_agree.
+
+(* ---- C01 across epochs under an arbitrary policy; the acceptance of the second order is DERIVED ----
+   (proofs/LinkXOrder.v)  same_sets_x: in every epoch that is reached the second schedule has the same events
+   as the first (incl both ways), without repeated ids, in some parents-first order, and no noise; of the
+   first run only epochs_ok_x is asked (input conditions of link_x) and that the reference accepts every
+   event of it.  That the second order is accepted as well follows from C01_acceptance_order_independent,
+   that it has the same forkers from node_indep, its id conditions from the first run's; nothing is assumed
+   about it.  Conclusion: the two instances emit the same blocks (frame, Atropos, cheaters, seal) and go
+   through the same validator sets, epoch by epoch.  The instances may differ in Builds (the example: the
+   second is fed by Process only), noise and restarts. *)
+From LV Require Import proofs.LinkXOrder proofs.LinkXOrderExample.
+
+Theorem C01_agreement_across_epochs_any_policy : forall cap lam pol vals Ss Ss' K,
+  vals <> [] -> epochs_ok_x pol K vals 1 Ss -> same_sets_x pol vals 1 Ss Ss' ->
+  N.of_nat (total_builds Ss) <= K -> N.of_nat (total_builds Ss') <= K -> K < 2 ^ 192 ->
+  map epoch_out (model_epochs_x cap lam pol (start 1 vals) vals 1 Ss') = map epoch_out (model_epochs_x cap lam pol (start 1 vals) vals 1 Ss).
+Proof. exact link_x_same_sets. Qed.
+
+(* the reference side: on a stream it accepts entirely, the blocks up to the seal and the next validators are a
+   function of the final table (hence of the event SET) *)
+Theorem C01_reference_walk_depends_on_the_event_set : forall ep vals sfr sc tn sc' tn',
+  let D := map x_ev sc in let D' := map x_ev sc' in
+  all_accepted vals D -> few_forkers vals (table vals D) -> incl D D' -> incl D' D -> NoDup (ids_of D') -> parents_first D' ->
+  snd (ref_x ep vals sfr [] sc' tn') = snd (ref_x ep vals sfr [] sc tn) /\
+  snd (fst (ref_x ep vals sfr [] sc' tn')) = snd (fst (ref_x ep vals sfr [] sc tn)).
+Proof. exact ref_x_same_set. Qed.
+
+Example C01_across_epochs_any_policy_example :
+  epochs_ok_x xx_pol 400 ex_vals 1 yy_Ss /\ same_sets_x xx_pol ex_vals 1 yy_Ss yy_Ss' /\
+  map (fun Sx => map x_ev (fst Sx)) yy_Ss <> map (fun Sx => map x_ev (fst Sx)) yy_Ss' /\
+  map epoch_out (model_epochs_x 3 xx_lam xx_pol (start 1 ex_vals) ex_vals 1 yy_Ss') =
+  map epoch_out (model_epochs_x 3 xx_lam xx_pol (start 1 ex_vals) ex_vals 1 yy_Ss) /\
+  map epoch_out (model_epochs_x 3 xx_lam xx_pol (start 1 ex_vals) ex_vals 1 yy_Ss') =
+  [ ([(1, 1000, [], None); (2, 1015, [37094], Some (mk_vals xx_vals2))], Some (mk_vals xx_vals2));
+    ([(1, 3002, [], Some (mk_vals ex_vals))], Some (mk_vals ex_vals));
+    ([(1, 5000, [], None); (2, 5015, [37094], None)], None) ].
+Proof. exact (conj yy_ok (conj yy_same_sets (conj yy_differ (conj yy_agreement yy_out)))). Qed.
+
+Print Assumptions C01_agreement_across_epochs_any_policy.
+Print Assumptions C01_reference_walk_depends_on_the_event_set.
